@@ -729,6 +729,10 @@ func (c *compiler) evalCallExpression(node *ast.CallExpression) (interface{}, er
 		}
 
 		rc := reflect.ValueOf(c)
+		if !rc.IsValid() {
+			return nil, fmt.Errorf("'%s' is nil and has no method to call (%s)", node.Callee.String(), node.String())
+		}
+
 		mname := node.Function.String()
 		if i, ok := node.Function.(*ast.Identifier); ok {
 			mname = i.Value
